@@ -59,7 +59,7 @@ def entry_job(job):
             # ONE Pervaporation object answers every entry point for both activity models (the quantifier says "the same
             # membrane, mixture, ..."): state kept inside the object between calls would show up as a disagreement
             perv = pv.Pervaporation(membrane=membrane, mixture=mix)
-            T = rng.uniform(290.0, 380.0)
+            T = gen.edge_temperature(rng)
             if rng.random() < 0.3:
                 T = float(rng.choice(membrane.ideal_experiments.experiments).temperature)
             basis = gen.tstr(rng, rng.choice(["weight", "weight", "molar"]))
